@@ -13,7 +13,7 @@ fn stub_ts() -> u64 { 0 }
 static mut DECODED_LEN: usize = 0;
 /// assumed contract of util::base64_decode_utf8: Err, or Ok(some UTF-8 string) -- here any ASCII string of the harness's length
 fn stub_b64() -> Result<String, base64::DecodeError> {
-    if kani::any() { return Err(base64::DecodeError::InvalidPadding) }
+    if unsafe { DECODE_FAILS } { return Err(base64::DecodeError::InvalidPadding) }
     let n = unsafe { DECODED_LEN };
     let b: [u8; 4] = kani::any();
     kani::assume(b[0] < 128 && b[1] < 128 && b[2] < 128 && b[3] < 128);
@@ -46,12 +46,18 @@ fn stub_b64_recording<T: AsRef<[u8]>>(_input: T) -> Result<String, base64::Decod
     r
 }
 
-/// shape -> (header kind 0 absent / 1 "Basic xx" / 2 "Bearer x" / 3 "basic xx", decoded length 0..=4, (user len, pass len) in {(1,1),(1,2),(2,1),(0,1)})
-fn basicauth_body(shape: usize) {
-    let hk = shape % 4;
-    let dl = (shape / 4) % 5;
-    let (ul, pl) = match shape / 20 { 0 => (1, 1), 1 => (1, 2), 2 => (2, 1), _ => (0, 1) };
-    unsafe { DECODED_LEN = dl };
+static mut DECODE_FAILS: bool = false;
+/// shape k -> (header kind 0 absent / 1 "Basic xx" / 2 "Bearer x" / 3 "basic xx", decode fails?, decoded length 0..=4, (user len, pass len), single fang or array of 2)
+/// everything that changes the SHAPE of the execution is concrete per harness; only the decoded bytes and the configured strings are symbolic
+const FORE_SHAPES: [(usize, bool, usize, usize, usize, bool); 20] = [
+    (0, false, 0, 1, 1, true), (2, false, 3, 1, 1, true), (3, false, 3, 1, 1, true), (1, true, 0, 1, 1, true),
+    (1, false, 0, 1, 1, true), (1, false, 1, 1, 1, true), (1, false, 2, 1, 1, true), (1, false, 3, 1, 1, true), (1, false, 4, 1, 1, true),
+    (1, false, 3, 1, 2, true), (1, false, 4, 1, 2, true), (1, false, 4, 2, 1, true), (1, false, 2, 0, 1, true), (1, false, 3, 0, 1, true),
+    (1, false, 3, 1, 1, false), (1, false, 4, 1, 2, false), (0, false, 0, 1, 1, false), (1, true, 0, 1, 1, false), (1, false, 2, 1, 1, false), (2, false, 3, 1, 1, false),
+];
+fn basicauth_body(k: usize) {
+    let (hk, fails, dl, ul, pl, single) = FORE_SHAPES[k];
+    unsafe { DECODED_LEN = dl; DECODE_FAILS = fails; }
     let mut req = Request::init(std::net::IpAddr::V4(std::net::Ipv4Addr::new(127, 0, 0, 1)));
     match hk {
         1 => req.headers.append(crate::request::RequestHeader::Authorization, CowSlice::Ref(Slice::from_bytes(b"Basic QQ=="))),
@@ -60,7 +66,6 @@ fn basicauth_body(shape: usize) {
         _ => {}
     }
     let (user, pass) = (sym_str(ul), sym_str(pl));
-    let single: bool = kani::any();
     let r = if single {
         block_on(BasicAuth { username: user, password: pass }.fore(&mut req))
     } else {
@@ -68,7 +73,7 @@ fn basicauth_body(shape: usize) {
         block_on([BasicAuth { username: "x", password: "y" }, BasicAuth { username: user, password: pass }].fore(&mut req))
     };
     let cred = unsafe { &LAST_CRED[..dl] };
-    let decoded_ok = hk == 1 && unsafe { LAST_OK };
+    let decoded_ok = hk == 1 && !fails;
     let want = decoded_ok && (spec_admits(cred, user.as_bytes(), pass.as_bytes()) || (!single && spec_admits(cred, b"x", b"y")));
     match r {
         Ok(()) => assert!(want, "BasicAuth: admitted although the header is not `Basic ` + base64(user:password) of a configured pair"),
@@ -76,8 +81,33 @@ fn basicauth_body(shape: usize) {
             assert!(!want, "BasicAuth: a correct credential of a configured pair was refused");
             assert!(res.status == Status::Unauthorized, "BasicAuth: refusal is 401");
             assert!(res.headers.WWWAuthenticate().map(|v| v.as_bytes()[0] == b'B' && v.as_bytes()[4] == b'c') == Some(true), "BasicAuth: refusal carries a `WWW-Authenticate: Basic ...` challenge");
+            std::mem::forget(res);
         }
     }
-    kani::cover!(want || hk != 1 || dl != ul + pl + 1);
+    std::mem::forget(req);
+    kani::cover!(want || hk != 1 || fails || dl != ul + pl + 1);
 }
-//@chunks 80 c13_basicauth_contract basicauth_body #[kani::proof] #[kani::unwind(16)] #[kani::stub(crate::util::unix_timestamp, stub_ts)] #[kani::stub(crate::util::base64_decode_utf8, stub_b64_recording)] #[kani::stub(std::str::from_utf8, stub_from_utf8)]
+//@chunks 20 c13_basicauth_contract basicauth_body #[kani::proof] #[kani::unwind(16)] #[kani::stub(crate::util::unix_timestamp, stub_ts)] #[kani::stub(crate::util::base64_decode_utf8, stub_b64_recording)] #[kani::stub(std::str::from_utf8, stub_from_utf8)]
+
+/// BasicAuth::matches: true iff BOTH strings equal the configured ones exactly (not a prefix, not a suffix, not case-folded, not swapped)
+fn sym_bytes3(len: usize) -> &'static str {
+    let b: &'static mut [u8; 3] = Box::leak(Box::new(kani::any()));
+    kani::assume(b[0] < 128 && b[1] < 128 && b[2] < 128);
+    unsafe { std::str::from_utf8_unchecked(&b[..len]) }
+}
+/// shape k -> (configured user len, configured pass len, given user len, given pass len), each 0..=3 except configured >= 1
+fn matches_body(k: usize) {
+    const L: [(usize, usize, usize, usize); 12] = [
+        (1, 1, 1, 1), (2, 2, 2, 2), (3, 1, 3, 1), (1, 3, 1, 3),     // equal lengths: decided by the bytes
+        (2, 2, 3, 2), (2, 2, 2, 3), (2, 2, 1, 2), (2, 2, 2, 1),     // one field longer / shorter: never admitted
+        (1, 2, 2, 1), (2, 1, 1, 2),                                  // lengths swapped
+        (1, 1, 0, 1), (1, 1, 1, 0),                                  // an empty given field
+    ];
+    let (cu, cp, gu, gp) = L[k];
+    let (user, pass, u, p) = (sym_bytes3(cu), sym_bytes3(cp), sym_bytes3(gu), sym_bytes3(gp));
+    let got = BasicAuth { username: user, password: pass }.matches(u, p);
+    let want = eq(user.as_bytes(), u.as_bytes()) && eq(pass.as_bytes(), p.as_bytes());
+    assert!(got == want, "BasicAuth::matches: true iff username and password both equal the configured strings exactly");
+    kani::cover!(got || cu != gu || cp != gp);
+}
+//@chunks 12 c13_matches_contract matches_body #[kani::proof] #[kani::unwind(8)]
